@@ -133,7 +133,7 @@ theorem bind_entry {cx : HeapU.Cx} {α γ : Type} {A : ARel N α} {B : ARel N γ
 exhausts the budget (`cx.uptoR`). -/
 theorem boxRead_rel (k : Nat) {x x' : Expr}
     (hp : POK Q (cxIf truthy G) call ρ k) (ihx : SoundE Q (cxIf truthy G) D x x')
-    {β : Inj N} {σ σ' : State N} {env env' : Env N} (hs : SRel Q (cxIf truthy G) β σ σ') (he : EnvOK β D env env') :
+    {β : Inj N} {σ σ' : State N} {env env' : Env N} (hs : SRel Q (cxIf truthy G) β σ σ') (he : EnvOK (cxIf truthy G) β D env env') :
     RRel Q (cxIf truthy G) β AVs ((evalE call ρ k env x σ).bind fun vs s => .ok [first vs] s)
       (boxRead call ρ k env' x' σ') := by
   have hone : One N := hp.cf.1
